@@ -238,11 +238,16 @@ def hyp_run(shard, body, strategy, max_examples, seed, known_keys=(), shrink=Tru
               verbosity=hypothesis.Verbosity.quiet)
     @given(strategy)
     def test(value):
+        if state.get("abort") is not None:
+            return
         if stop_at is not None and state["target"] is None and time.time() > stop_at:
             shard.event("budget_cut")
             return
         try:
             body(value)
+        except HarnessError as e:
+            state["abort"] = "HarnessError: %s" % e
+            return
         except Failure as f:
             if f.sig in known_keys:
                 shard.known_hits[f.sig] += 1
@@ -253,6 +258,9 @@ def hyp_run(shard, body, strategy, max_examples, seed, known_keys=(), shrink=Tru
                 return
             state["last"] = f
             raise
+        except Exception:
+            state["abort"] = traceback.format_exc()
+            return
 
     try:
         test()
@@ -261,3 +269,7 @@ def hyp_run(shard, body, strategy, max_examples, seed, known_keys=(), shrink=Tru
         shard.failures.append({"sig": f.sig, "what": f.what, "replay": f.replay})
     except hypothesis.errors.Unsatisfiable as e:
         raise HarnessError("generator unsatisfiable: %s" % e)
+    except hypothesis.errors.Flaky as e:
+        shard.notes.append("HARNESS-ERROR: flaky case (non-deterministic check body): %s" % e)
+    if state.get("abort") is not None:
+        raise HarnessError("check body crashed:\n" + state["abort"])
